@@ -92,6 +92,22 @@ def gen_dm_cases(run, rng):
             rest = [q for q in range(n) if q not in qs]
             cases.append({"n": n, "gates": [named_gate(rng, n, name, qs, rest)], "init": rand_rho(rng, n, "general"),
                           "rho_kind": "general"})
+    # deterministic corpus: every named class that takes controlled_by, with 1, 2 and 3 GENERIC controls (from two controls
+    # on, X / Y / Z / ... keep their class and go through the controlled branch of the density-matrix kernel; a class-level
+    # fast path that forgets the controls is only visible there), with and without a spectator qubit
+    for name in NAMED:
+        if NAMED[name][0] != 0:
+            continue
+        need = NAMED_ARITY[name]
+        for nc in (1, 2, 3):
+            for spect in (0, 1):
+                n = need + nc + spect
+                if n > 5 or (n == 5 and need > 1):
+                    continue
+                order = rng.sample(range(n), n)
+                qs, extra = order[:need], order[need:need + nc]
+                cases.append({"n": n, "gates": [named_gate(rng, n, name, qs, extra)], "init": rand_rho(rng, n, "general"),
+                              "rho_kind": "general"})
     return cases
 
 
